@@ -648,6 +648,33 @@ func runC16(c *Ctx) {
 		adds := callsIn(f, idIs("util/cacheutil.(*LRUCache).Add"))
 		c.verdict(c.fnKey(f)+":first-use", f.Pos(), len(adds) == 1, "first use pins the ref in the LRU", "use does not pin the ref")
 	}
+	// ---------- C16.h ----------
+	c.clause("C16.h", "T4", "check-then-act on the manager's maps is atomic: a write to r.layer/refcounter/resolveLayerCache that follows a read of the same map in the same function happens in the same critical section of r.mu (the map looked up is not used across an unlock)", 3)
+	byFn := map[*ssa.Function][]nestedMapAccess{}
+	for _, a := range acc {
+		byFn[a.fn] = append(byFn[a.fn], a)
+	}
+	for _, f := range fns {
+		as := byFn[f]
+		for _, w := range as {
+			if w.op != "update" && w.op != "delete" {
+				continue
+			}
+			for _, r := range as {
+				if r.op != "lookup" || r.field != w.field || r.instr == w.instr || !dominatesInstr(r.instr, w.instr) {
+					continue
+				}
+				recv := "r"
+				if len(f.Params) > 0 {
+					recv = f.Params[0].Name()
+				}
+				good := sameRegion(c, f, r.instr, w.instr, recv+".mu")
+				c.verdict(fmt.Sprintf("%s:%s:%s-after-lookup", c.fnKey(f), w.field, w.op), w.instr.Pos(), good, "read and write of the map in one critical section", "the map is read, r.mu released, and then written on the basis of the stale read (a concurrent release can delete the per-image map in between: the layer is inserted into an orphaned map, looked up as missing and never released)")
+			}
+		}
+	}
+	clauseLayerClosedOnlyByOwner(c, "C16.i")
+	clauseDetachWithChildren(c, "C16.j")
 	c.assume("go-fuse serialises nothing: handlers may race; only the lock discipline of LayerManager is decided")
 }
 
